@@ -349,7 +349,7 @@ def check_bpch_pads(ctx):
     padvals = set(v for vs in recpads.values() for v in vs)
     okpads = len(recpads) == 2 and len(padvals) == 1 and re.match(r"^np\.prod\((vals|[\w\.\[\]']+\[ti\])\.shape\) \* 4$", list(padvals)[0])
     dfmt = [norm(n) for n in ast.walk(fn) if isinstance(n, ast.BinOp) and isinstance(n.op, ast.Mod) and isinstance(n.left, ast.Constant) and n.left.value == '%s>f']
-    okfmt = any(re.match(r"^'%s>f' % (str\()?tuple\(var\[0\]\.shape\)\)?$", d_) for d_ in dfmt)
+    okfmt = any(re.match(r"^'%s>f' % \(?(str\()?tuple\(var\[0\]\.shape\)\)?,?\)?$", d_) for d_ in dfmt)
     if not okfmt:
         # the shape text may be built in its own statement
         for n in ast.walk(fn):
